@@ -1,7 +1,7 @@
 (* C09: VSS finalisation pads to a quadlet and records length and pad correctly. *)
 From Coq Require Import List NArith ZArith Bool Lia Arith String ZifyN ZifyNat ZifyBool.
 From O1722 Require Import Sym Bits Host FieldModel FieldProofs Spec SpecProofs RecordTheory AccModel AccProofs FormatChecks
-  NormalProofs Paths VssModel VssSpec C13Proofs C01Proofs C17Proofs C12Proofs C05Proofs FieldOpsProofs C06Proofs.
+  NormalProofs ByteLemmas Paths VssModel VssSpec C13Proofs C01Proofs C17Proofs C12Proofs C05Proofs FieldOpsProofs C06Proofs.
 From O1722.Generated Require Import Tables.
 Import ListNotations.
 Local Open Scope N_scope.
